@@ -21,6 +21,21 @@ def run(chk):
     res = json.load(open(resf))
     for v in res["violations"] or []:
         chk.violation(v["sig"], v["desc"], dict(kind="c17", detail=v))
+    # the admin client polls a running procedure with the same schedule (Admin.tla / Trace_Admin)
+    from props import admin
+    ad = admin.run_admin(chk)
+    for v in ad.get("violations") or []:
+        chk.violation(v["sig"], v["desc"], dict(kind="admin", detail=v))
+    for st in ad["stuck"]:
+        at = st["at"] or {}
+        if st.get("after_cancel"):
+            continue    # (what happens after the context ended is C13's)
+        if at.get("ev") == "procPoll" or st["violated"] in ("WaitsFollowSchedule", "OnePollPerWait", "NeverPollsAfterTheVerdict"):
+            chk.violation("admin-poll-schedule", "admin scenario %s: the polls of the procedure do not follow the retry schedule (%s at %s); events %s"
+                          % (st["scenario"], st["violated"], json.dumps(at), json.dumps(st["events"])[:900]), dict(kind="admin-trace", detail=st))
+        elif not (at.get("ev") == "adminRet" and at.get("result") == "ctx") and at.get("ev") != "cancel":
+            chk.notes.append("MODEL-DRIFT admin scenario %s: Admin.tla cannot follow %s (%s) - not a statement of C17" % (st["scenario"], json.dumps(at)[:200], st["violated"]))
+    chk.cov["admin_scenarios_validated"] = ad["scenarios"]
     lines = [l for l in open(os.path.join(wd, "c17_trace.ndjson")).read().splitlines() if l.strip()]
     chunks = vlib.split_trace(lines, 1, reset_marker='"ev":"scenario"')
     results = vlib.validate_chunks("Trace_Backoff", "c17_trace.ndjson", chunks, parallel=10, timeout=600)
